@@ -97,6 +97,28 @@ def run_frames(rep, cases):
                 case = {"entry": "Column", "spec": spec, "frame": D, "lazy": lazy}
                 rep.case(case, nontrivial=spec["coerce"] or spec["default"] is not None)
                 judge(rep, case, "Column", df, before, outcome, out, pd.DataFrame)
+            # the same column with a value-changing parser and no coercion / default (the parsed values are
+            # written back to the frame: they must land in a copy)
+            try:
+                kw = A.component_kwargs(dict(spec, coerce=False, default=None))
+                kw.pop("default", None)
+                pcol = pa.Column(name=spec["name"], required=spec["required"],
+                                 parsers=[pa.Parser(lambda s_: s_.iloc[::-1].set_axis(s_.index))], **kw)
+            except Exception:  # noqa: BLE001
+                pcol = None
+            if pcol is not None:
+                for lazy in (False, True):
+                    df = A.frame_of(D)
+                    before = norm(snap(df))
+                    outcome, out = call(pcol, df, lazy=lazy)
+                    case = {"entry": "Column+parser", "spec": dict(spec, coerce=False, default=None), "frame": D, "lazy": lazy}
+                    rep.case(case, nontrivial=len(set(map(repr, df[spec["name"]].tolist()))) > 1)
+                    judge(rep, case, "Column+parser", df, before, outcome, out, pd.DataFrame)
+                    # and inside a DataFrameSchema
+                    df = A.frame_of(D)
+                    outcome, out = call(pa.DataFrameSchema({spec["name"]: pcol}), df, lazy=lazy)
+                    judge(rep, dict(case, entry="DataFrameSchema+parser"), "DataFrameSchema+parser", df, before, outcome,
+                          out, pd.DataFrame)
             # the same column as a SeriesSchema
             try:
                 ss = A.series_schema_of(dict(spec, name=None), index_spec=S["index"])
